@@ -25,3 +25,17 @@ add("C09",
                "equal-time ties are only generated as fully identical snapshots.",
     shards={"quick": 16, "thorough": 16},
     )
+
+add("C06",
+    engine="ENUM",
+    level="exploration",
+    technique="bounded exhaustive enumeration of inputs and read-fragmentation deviations against an independent bit-serial Rabin reference",
+    design_ref="DESIGN.md §4.5, §5 C06",
+    level_text="For every accepted (polynomial, size, min, max) of a grid incl. the smallest accepted values and for fixed-size chunkers, "
+               "every stream length 0..3*max+70 of nine stream families (constant, periodic, LCG, adversarially boundary-dense) is chunked by the "
+               "real chunker under every single short-read / Interrupted deviation, all-1-byte reads and strides, and compared with an independent "
+               "bit-serial polynomial-reduction reference; concatenation, bounds and suffix re-synchronisation are checked on each.",
+    level_note="Reaches the crate-private chunker through the verif hook `verif::chunk_iter` (same constructor the archiver uses). "
+               "Streams are bounded by 3*max+70 bytes; for parameters with max > 700 only boundary lengths are enumerated.",
+    shards={"quick": 16, "thorough": 16},
+    )
